@@ -32,6 +32,7 @@ def configs(tier, seed):
     std = [
         {"name": "std-default", "kwargs": {"nlive": 50}},
         {"name": "std-capped", "kwargs": {"nlive": 50, "max_iteration": 40}},
+        {"name": "std-offset-1e4", "offset": 1.0e4, "kwargs": {"nlive": 50}},
         {"name": "std-flow-t", "sharp": 6.0,
          "kwargs": {"nlive": 80, "maximum_uninformed": 80, "shrinkage_expectation": "t", "training_frequency": 80}},
     ]
@@ -39,13 +40,19 @@ def configs(tier, seed):
         {"name": "ins-default", "ins": True, "kwargs": {"nlive": 60, "max_iteration": 3, "min_samples": 20, "min_remove": 2}},
         {"name": "ins-no-iid", "ins": True,
          "kwargs": {"nlive": 60, "max_iteration": 3, "min_samples": 20, "min_remove": 2, "draw_iid_live": False}},
+        # a large constant in the log-likelihood: |log Z| far beyond the range where exp() of the raw weights is
+        # representable in double precision (the uncertainty must still be the estimator of the returned samples)
+        {"name": "ins-offset-m400", "ins": True, "offset": -400.0,
+         "kwargs": {"nlive": 60, "max_iteration": 3, "min_samples": 20, "min_remove": 2}},
+        {"name": "ins-offset-m2000", "ins": True, "offset": -2000.0,
+         "kwargs": {"nlive": 60, "max_iteration": 3, "min_samples": 20, "min_remove": 2}},
         {"name": "ins-strict-replace", "ins": True,
          "kwargs": {"nlive": 60, "max_iteration": 3, "min_samples": 20, "min_remove": 2, "strict_threshold": True,
                     "draw_constant": False}},
     ]
     if tier == "thorough":
         std += [
-            {"name": "std-analytic", "kwargs": {"nlive": 100, "analytic_priors": False, "tolerance": 0.5}},
+            {"name": "std-stopping", "kwargs": {"nlive": 100, "stopping": 0.5}},
             {"name": "std-flow-logt", "sharp": 10.0, "kwargs": {"nlive": 100, "maximum_uninformed": 100, "training_frequency": 100}},
             {"name": "std-capped-flow", "sharp": 6.0, "kwargs": {"nlive": 60, "maximum_uninformed": 60, "max_iteration": 200}},
         ]
@@ -54,8 +61,8 @@ def configs(tier, seed):
              "kwargs": {"nlive": 80, "max_iteration": 4, "min_samples": 30, "min_remove": 2, "replace_all": True}},
             {"name": "ins-none-reparam", "ins": True,
              "kwargs": {"nlive": 80, "max_iteration": 5, "min_samples": 30, "min_remove": 2, "reparameterisation": None}},
-            {"name": "ins-redraw", "ins": True, "run_kwargs": {"redraw_samples": True, "n_posterior_samples": 50},
-             "kwargs": {"nlive": 80, "max_iteration": 3, "min_samples": 30, "min_remove": 2}},
+            # run(redraw_samples=True) cannot complete on the current tree (open finding of C20:
+            # ImportanceFlowProposal.unnormalised_weights is never assigned), so there is no completed run to check
             {"name": "ins-no-iid-tol", "ins": True,
              "kwargs": {"nlive": 80, "max_iteration": 6, "min_samples": 30, "min_remove": 2, "draw_iid_live": False,
                         "stopping_criterion": "ess", "tolerance": 200.0}},
@@ -156,7 +163,18 @@ def check_std(chk, cfg, r, c02_cases, err_cases):
     groups.append(cT("2%nat" if r["finalised"] else "1%nat", cL([odyo(r["fs"]["logZ"])])))
     c02_cases.append((name, cT(md, ls, ns, cL(groups))))
     e = r["fs"]["logZ_error"]
-    err_cases.append((name, cT(md, ls, ns, f"{nlive}%positive", dy(e), dy(pow2_ge(2.0 ** -30 * max(e, 1e-300))))))
+    if e != e and r["state"]["info"] < 0:
+        # sqrt of a negative information estimate (possible for nearly flat likelihoods early in a run): the model's
+        # real square root is not defined there either; recorded, nothing to compare
+        chk.count("std uncertainty NaN from a negative information estimate")
+        return
+    if not (math.isfinite(e) and math.isfinite(r["fs"]["logZ"])):
+        chk.fail("C05:std-not-finite", f"[{name}] reported log Z {r['fs']['logZ']} / uncertainty {e} not finite", rep({}))
+        return
+    # the information recurrence subtracts numbers of the size of the log-likelihoods: its float64 error grows with
+    # max|logL| (cancellation), so the tolerance does too: 2^-30 (1 + max|logL| / 10) relative
+    mag = max([abs(v) for v in S["logL"] if v == v and abs(v) != INF] + [0.0])
+    err_cases.append((name, cT(md, ls, ns, f"{nlive}%positive", dy(e), dy(pow2_ge(2.0 ** -30 * (1.0 + mag / 10.0) * max(e, 1e-300))))))
     chk.nontriv(("std", name, it))
 
 
@@ -193,6 +211,10 @@ def check_ins(chk, cfg, r, ins_cases):
         src = (d["logL"], d["logW"], d["log_evidence"], d["log_evidence_error"], d["lpw"])
     elif not r["redraw"]:
         src = (S["logL"], S["logW"], r["fs"]["logZ"], r["fs"]["logZ_error"], r["state"]["lpw"])
+    if src and not (math.isfinite(src[2]) and math.isfinite(src[3]) and all(v == v and v != INF for v in src[4])):
+        chk.fail("C05:ins-not-finite", f"[{name}] reported log Z {src[2]} / uncertainty {src[3]} / weights are not finite numbers "
+                 f"although the estimator on the returned samples is", rep({"observed": {"logZ": src[2], "logZ_error": src[3]}}))
+        src = None
     if src and len(src[0]) >= 2:
         logL, logW, lz, er, lpw = src
         ws = cL(cT(odyo(a), odyo(b)) for a, b in zip(logL, logW))
@@ -212,7 +234,8 @@ def run(chk):
     chk.assumptions += [
         "oracle: the user's log_likelihood / log_prior (validated: every returned sample is re-evaluated)",
         "C02's verified evaluator (Run/C02_run.v check_case, theorem C02_check_sound) is reused for log Z and the posterior weights of the standard sampler",
-        "tolerances: importance log Z and weights 2^-40 max(1,|.|), uncertainties 2^-30 relative; standard: C02's tolerances, uncertainty 2^-30 relative",
+        "tolerances: importance log Z and weights 2^-40 max(1,|.|), uncertainty 2^-30 relative; standard: C02's tolerances, "
+        "uncertainty 2^-30 (1 + max|logL|/10) relative (the recurrence cancels numbers of the size of the log-likelihoods)",
         "the model of the standard uncertainty is the information recurrence exactly as _NSIntegralState.increment codes it "
         "(its first finite step contributes ln W_1 where the exact information has ln L_1)",
     ]
@@ -267,6 +290,13 @@ def run(chk):
             good = ok and (ev.strip() in ("[]", "true"))
             if not good:
                 bad.append(f"{name}: {ev or err[-300:]}")
+                if ok:
+                    cfg = next(c for c in cfgs if c["name"] == name)
+                    r = results[cfgs.index(cfg)]
+                    clause = {"c02": "log Z / posterior weights", "err": "uncertainty", "ins": "log Z / uncertainty / posterior weights (clauses " + ev + ")"}[kind]
+                    chk.fail(f"C05:recompute:{kind}", f"[{name}] the reported {clause} is not what the estimator gives on the returned "
+                             f"samples (reported logZ {r['fs']['logZ']}, error {r['fs']['logZ_error']})",
+                             {"config": cfg, "observed": {"logZ": r["fs"]["logZ"], "logZ_error": r["fs"]["logZ_error"], "coq": ev}})
         chk.oblige(f"correspondence: {what} ({len(rs)} runs, decided inside Coq)", "correspondence", not bad, "; ".join(bad)[:1500])
 
 
